@@ -204,12 +204,12 @@ func init() {
 					{enc, good, d, 0, 11 + uint64(rng.Intn(100)), "refused skew"},
 				}
 				for _, cs := range causes {
-					fh = append(fh, vhotpCase{KeyHex: hexs(key), Secret: cs.secret, Counter: 9, Skew: cs.skew, Digits: uint8(cs.d), Algo: uint8(cs.a), Submitted: hexs([]byte(cs.sub)), Note: cs.note})
+					fh = append(fh, vhotpCase{KeyHex: hexs(key), Secret: cs.secret, Counter: 9, Skew: cs.skew, Digits: uint8(cs.d), Algo: uint8(cs.a), Submitted: []string{hexs([]byte(cs.sub))}, Notes: []string{cs.note}})
 					tsub := cs.sub
 					if cs.note == "accepting" {
 						tsub = ref.TOTP(key, 1700000000, 30, d, 0)
 					}
-					ft = append(ft, vtotpCase{KeyHex: hexs(key), Secret: cs.secret, At: gen.InstantSpec{Unix: 1700000000}, Period: 30, Skew: cs.skew, Digits: uint8(cs.d), Algo: uint8(cs.a), Submitted: hexs([]byte(tsub)), Note: cs.note})
+					ft = append(ft, vtotpCase{KeyHex: hexs(key), Secret: cs.secret, At: gen.InstantSpec{Unix: 1700000000}, Period: 30, Skew: cs.skew, Digits: uint8(cs.d), Algo: uint8(cs.a), Submitted: []string{hexs([]byte(tsub))}, Notes: []string{cs.note}})
 				}
 			}
 			parallelJudge(c, fh, judgeVHOTP)
@@ -225,9 +225,13 @@ func init() {
 					gf = append(gf, genFailCase{Op: op, KeyHex: hexs(key), Secret: enc, Digits: uint8(rng.Intn(256)), Algo: uint8(rng.Intn(256))})
 				}
 				gf = append(gf, genFailCase{Op: "GenerateTOTPURL", KeyHex: hexs(key), Secret: enc}, genFailCase{Op: "GenerateHOTPURL", KeyHex: hexs(key), Secret: enc})
-				for _, q := range []string{"digits=x", "period=-1", "algorithm=MD5", "digits=999"} {
+				for _, q := range []string{"digits=x", "period=-1", "algorithm=MD5", "digits=999", "digits=%zz", "%zz=1", "digits=6;period=30", "period=%", "amp;digits=8", "digits=8&x=%gg", "algorithm=%41%4", "digits=99999999999999999999", "period=1e3"} {
 					gf = append(gf, genFailCase{Op: "ParseOTPAuthURL", KeyHex: hexs(key), Secret: enc, URL: "otpauth://totp/I:a?secret=" + enc + "&" + q})
 				}
+				gf = append(gf, genFailCase{Op: "ParseOTPAuthURL", KeyHex: hexs(key), Secret: enc, URL: "otpauth://user:" + enc + "@totp/I:a?secret=" + enc + "&digits=%zz"},
+					genFailCase{Op: "ParseOTPAuthURL", KeyHex: hexs(key), Secret: enc, URL: "otpauth://totp/I:" + enc + "?secret=" + enc + "&digits=x"},
+					genFailCase{Op: "ParseOTPAuthURL", KeyHex: hexs(key), Secret: enc, URL: "otpauth://totp/nolabel-" + enc + "?secret=" + enc},
+					genFailCase{Op: "ParseOTPAuthURL", KeyHex: hexs(key), Secret: enc, URL: "otpauth://totp/I:a?secret=" + enc + "#" + enc + "&digits=x"})
 				gf = append(gf, genFailCase{Op: "ParseOTPAuthURL", KeyHex: hexs(key), Secret: enc, URL: "otpauth://xotp/I:a?secret=" + enc}, genFailCase{Op: "ParseOTPAuthURL", KeyHex: hexs(key), Secret: enc, URL: "otpauth://totp/nolabel?secret=" + enc}, genFailCase{Op: "ParseOTPAuthURL", KeyHex: hexs(key), Secret: enc, URL: "https://totp/I:a?secret=" + enc})
 			}
 			parallelJudge(c, gf, judgeGenFail)
